@@ -75,3 +75,105 @@ R.loop(
     var_kinds={"token": "str?"},
     fingerprint="token",
 )
+
+# ---------------------------------------------------------------- name lookup and the walk down the command tree (C03)
+M_COLL = "clikit.api.command.command_collection"
+R.shape("CommandCollection", _commands="odict[str, ref Command]", _short_name_index="odict[str, str]",
+        _alias_index="odict[str, str]")
+R.shape("Command", _named_sub_commands="ref CommandCollection", _default_sub_commands="ref CommandCollection")
+# the abstract view of a collection used by the resolver contracts: which names it knows and what they denote.
+# (uninterpreted functions of the collection object and the name: the resolver changes no collection -- frame
+# obligations below -- so the view is the same at every point of one resolution)
+R.uf("cc_has", ["ref CommandCollection", "str"], "bool", native=lambda coll, name: name in coll)
+R.uf("cc_get", ["ref CommandCollection", "str"], "ref Command", native=lambda coll, name: coll.get(name))
+
+CC_HAS = "(name in self._commands or name in self._short_name_index or name in self._alias_index)"
+CONTAINS = M_COLL + ":CommandCollection.__contains__"
+R.contract(
+    CONTAINS, params={"name": "str"}, returns="bool",
+    ensures=[
+        # a name is known iff it is a command name, a short name or an alias
+        "result == %s" % CC_HAS,
+        "[def] result == cc_has(self, name)",
+    ],
+    modifies=[],
+)
+CC_GET = M_COLL + ":CommandCollection.get"
+IN_S = "(name not in self._commands and name in self._short_name_index)"
+IN_A = "(name not in self._commands and name not in self._short_name_index and name in self._alias_index)"
+R.contract(
+    CC_GET, params={"name": "str"}, returns="ref Command",
+    ensures=[
+        # name first, then short name, then alias
+        "implies(name in self._commands, result is self._commands[name])",
+        "implies(%s, self._short_name_index[name] in self._commands and result is self._commands[self._short_name_index[name]])" % IN_S,
+        "implies(%s, self._alias_index[name] in self._commands and result is self._commands[self._alias_index[name]])" % IN_A,
+        "[def] result is cc_get(self, name)",
+    ],
+    raises={"NoSuchCommandException": "not %s" % CC_HAS,
+            # an index entry whose command is gone (CommandCollection.add stores the command first, so never in practice)
+            "KeyError": "(%s and self._short_name_index[name] not in self._commands) or "
+                        "(%s and self._alias_index[name] not in self._commands)" % (IN_S, IN_A)},
+    modifies=[],
+)
+
+# wcmd(c, names, i): the command reached from command c by matching names[i:] against the named sub-commands, level by
+# level, until a token names no sub-command (or the tokens run out) -- "the longest prefix that names a path"
+R.uf("subs_of", ["ref Command"], "ref CommandCollection", native=lambda c: c.named_sub_commands)
+R.spec_fn(
+    "wcmd", [("c", "ref Command"), ("names", "seq[str]"), ("i", "int")],
+    "c if (i < 0 or i >= len(names) or not cc_has(subs_of(c), names[i])) else wcmd(cc_get(subs_of(c), names[i]), names, i + 1)",
+    "ref Command", recursive=True,
+)
+R.contract(M_CMD + ":Command.named_sub_commands", params={}, returns="ref CommandCollection",
+           ensures=["result is self._named_sub_commands", "[def] result is subs_of(self)"], modifies=[]).is_property = True
+R.contract(M_CMD + ":Command.default_sub_commands", params={}, returns="ref CommandCollection",
+           ensures=["result is self._default_sub_commands"], modifies=[]).is_property = True
+
+R.shape("ResolveResult", g_base="ref Command")
+PDSC = M_DEF + ":DefaultResolver.process_default_sub_commands"
+R.contract(
+    PDSC, params={"args": "ref RawArgs", "current_command": "ref Command"}, returns="ref ResolveResult",
+    ensures=["result.g_base is current_command"], raises={"Exception": "True"}, modifies=[], assumed=True,
+    note="ghost g_base: the command from which the default-sub-command rule started (the rule itself: bounded tier)",
+)
+PO = M_DEF + ":DefaultResolver.process_options"
+R.contract(
+    PO, params={"args": "ref RawArgs", "current_command": "ref Command", "options_to_test": "list[str]"},
+    returns="ref ResolveResult",
+    # options after the path never change the selection: the default rule starts from the command the path reached
+    ensures=["result.g_base is current_command"], raises={"Exception": "True"}, modifies=[],
+)
+R.loop(PO, 0, invariants=["True"], modifies=[], fingerprint="option in options_to_test")
+
+PA = M_DEF + ":DefaultResolver.process_arguments"
+N = "seq(arguments_to_test)"
+HAS0 = "(len(arguments_to_test) > 0 and cc_has(named_commands, arguments_to_test[0]))"
+FIRST = "cc_get(named_commands, arguments_to_test[0])"
+R.contract(
+    PA,
+    params={"args": "ref RawArgs", "named_commands": "ref CommandCollection", "arguments_to_test": "list[str]",
+            "options_to_test": "list[str]"},
+    returns="ref ResolveResult?",
+    ensures=[
+        # nothing is selected iff the first leading token names no command (or there is none)
+        "(result is None) == (not %s)" % HAS0,
+        # otherwise the selection starts from the command reached by the longest prefix of the leading tokens that
+        # names a path of commands -- whatever the options are
+        "implies(%s, result.g_base is wcmd(%s, %s, 1))" % (HAS0, FIRST, N),
+    ],
+    raises={"Exception": "True"},
+    modifies=[],
+)
+R.loop(
+    PA, 0,
+    invariants=[
+        "(current_command is None and _i == 0 and named_commands is old(named_commands)) or "
+        "(current_command is not None and _i >= 1 and named_commands is subs_of(current_command) and %s and "
+        "wcmd(%s, %s, 1) is wcmd(current_command, %s, _i))"
+        % (HAS0.replace("named_commands", "old(named_commands)"), FIRST.replace("named_commands", "old(named_commands)"), N, N),
+    ],
+    modifies=[],
+    var_kinds={"current_command": "ref Command?", "next_command": "ref Command", "named_commands": "ref CommandCollection"},
+    fingerprint="name in arguments_to_test",
+)
